@@ -289,6 +289,7 @@ func main() {
 				b, _ := os.ReadFile(filepath.Join(src, e.Name()))
 				if strings.HasSuffix(e.Name(), ".go") {
 					b = bytes.ReplaceAll(b, []byte("package PKG"), []byte("package "+p.Name))
+					b = bytes.ReplaceAll(b, []byte("PKGNAME"), []byte(p.Name))
 				}
 				os.WriteFile(filepath.Join(dir, e.Name()), b, 0o644)
 			}
